@@ -64,21 +64,39 @@ def trig_recalculated_hidden_tag(prog, leaves):
     return False
 
 
-def _statically_empty(node, leaves):
-    """Sub-programs the library knows to be empty when the tree is built (max_rows == 0)."""
+def _static_max_rows(node, leaves):
+    """Upper row bound the library derives when the tree is built (None = unbounded), from the leaves' declared bounds."""
     k = node[0]
     if k == "leaf":
         leaf = leaves[node[1]]
-        return leaf[4] == "doomed" or (leaf[4] == "data" and leaf[5][1] == 0)
+        if leaf[4] == "doomed":
+            return 0
+        if leaf[4] == "identity":
+            return 1
+        return leaf[5][1]
     if k == "slice":
-        return (node[3] is not None and node[3] <= node[2]) or _statically_empty(node[1], leaves)
-    if k in ("calc", "proj", "sel", "dedup", "sort", "mat", "xfer"):
-        return _statically_empty(node[1], leaves)
-    if k == "chain":
-        return _statically_empty(node[1], leaves) and _statically_empty(node[2], leaves)
+        hi = _static_max_rows(node[1], leaves)
+        start, stop = node[2], node[3]
+        if stop is not None and stop <= start:
+            return 0
+        if hi is None:
+            return None if stop is None else stop - start
+        top = hi if stop is None else min(hi, stop)
+        return max(top - start, 0)
+    if k in ("chain",):
+        a, b = _static_max_rows(node[1], leaves), _static_max_rows(node[2], leaves)
+        return None if a is None or b is None else a + b
     if k in ("join", "joinx"):
-        return _statically_empty(node[1], leaves) or _statically_empty(node[2], leaves)
-    return False
+        a, b = _static_max_rows(node[1], leaves), _static_max_rows(node[2], leaves)
+        if a == 0 or b == 0:
+            return 0
+        return None if a is None or b is None else a * b
+    return _static_max_rows(node[1], leaves)
+
+
+def _statically_empty(node, leaves):
+    """Sub-programs the library knows to be empty when the tree is built (max_rows == 0)."""
+    return _static_max_rows(node, leaves) == 0
 
 
 def trig_sorted_chain_with_empty_operand(prog, leaves):
